@@ -493,16 +493,76 @@ func (e *env) absentAfterT(i, j int) bool {
 	return e.in.Storage == "sparse" && e.c.HasT && e.c.val(e.in.Pat, i, j) == 0
 }
 
+// absentAtT: the same for a freshly constructed view on which nothing has iterated yet:
+// under pattern "s" the zero element is a stored entry, T() shares its scalar, no deviation
+func (e *env) absentAtT(i, j int) bool {
+	return e.absentAfterT(i, j) && e.in.Pat != "s"
+}
+
+// observers that are driven by the iterators / the key index of the matrix rather than by
+// element access: used after writes (an entry that At()/ConstAt see but the index does not
+// know is invisible to all of them)
+func iterSnap(m ConstMatrix) interface{} {
+	r, c := m.Dims()
+	s := make([][]string, r)
+	for i := range s {
+		s[i] = make([]string, c)
+		for j := range s[i] {
+			s[i][j] = "0"
+		}
+	}
+	n := 0
+	for it := m.ConstIterator(); it.Ok(); it.Next() {
+		if n++; n > 400 {
+			return "nonterminating"
+		}
+		i, j := it.Index()
+		if i < 0 || j < 0 || i >= r || j >= c {
+			return fmt.Sprintf("index (%d,%d) outside %dx%d", i, j, r, c)
+		}
+		if x := it.GetConst(); x != nil {
+			s[i][j] = fstr(x.GetFloat64())
+		}
+	}
+	return s
+}
+
+func (e *env) observers(m Matrix, content [][]float64) interface{} {
+	c := e.c
+	in := e.in
+	r := []interface{}{iterSnap(m)}
+	for _, st := range []string{in.Storage, in.other()} {
+		eq := ownerOf(st, in.T, content, c.Vr, c.Vc)
+		r = append(r, m.Equals(eq, 1e-8), eq.Equals(m, 1e-8))
+	}
+	r = append(r, snapv(newVec(in.Storage, in.T, c.Vr).MdotV(m, mkv(in.Storage, in.T, c.Vc, fD1))))
+	r = append(r, snapv(newVec(in.Storage, in.T, c.Vc).VdotM(mkv(in.Storage, in.T, c.Vr, fD1), m)))
+	r = append(r, snap(newMat(in.Storage, in.T, c.Vr, kdim).MdotM(m, mk(in.Storage, in.T, c.Vc, kdim, fD))))
+	r = append(r, snap(AsSparseMatrix(in.T, m)), iterSnap(m.T()), iterSnap(m.Slice(c.Vr/2, c.Vr, 0, c.Vc)),
+		iterSnap(m.Slice(0, c.Vr, c.Vc/2, c.Vc)))
+	if in.Storage == "dense" || c.Own {
+		b, _ := m.MarshalJSON() // (sparse slices: known finding C10-sparse-json-of-slice-empty)
+		r = append(r, string(b))
+	}
+	return r
+}
+
+func fD1(i int) float64 { return float64(1 + i%3) }
+
 // writeThroughWith: a write to element (i,j) of a reference view changes exactly the owner
 // cell den[i][j] printed by TLC
-func (e *env) writeThroughWith(op string, build func() (Matrix, Matrix), set func(V Matrix, i, j int, v float64)) {
+func (e *env) writeThroughWith(op string, observe bool, build func() (Matrix, Matrix), set func(V Matrix, i, j int, v float64)) {
 	c := e.c
 	e.section(op, func() {
 		P, V := build()
 		base := e.pexpect()
+		first := true
 		for i := 0; i < c.Vr; i++ {
 			for j := 0; j < c.Vc; j++ {
 				k := c.Den[i][j]
+				if e.in.Pat == "s" {
+					P, V = build() // iterators delete the zero entries they pass: stored zeros need a fresh view
+				}
 				set(V, i, j, wval)
 				if g := V.ConstAt(i, j).GetFloat64(); g != wval {
 					e.bad(op, "view_lost_write", wval, g)
@@ -513,12 +573,37 @@ func (e *env) writeThroughWith(op string, build func() (Matrix, Matrix), set fun
 				g := psnap(P, c)
 				if canon(g) != canon(x) {
 					what := "parent_differs"
-					if e.absentAfterT(i, j) && canon(g) == canon(base) {
+					if e.absentAtT(i, j) && canon(g) == canon(base) {
 						what = "absent_cell_after_T_not_shared"
 					}
 					e.bad(op, what, vh.M{"write": []int{i, j}, "cell": k, "parent": x}, g)
 					if what == "parent_differs" {
 						return
+					}
+				}
+				if observe && (first || c.val(e.in.Pat, i, j) == 0) {
+					// the written view seen through iterator-driven operations = the same
+					// operations on an independent owner holding the same elements
+					first = false
+					content := make([][]float64, c.Vr)
+					for a := range content {
+						content[a] = make([]float64, c.Vc)
+						for b := range content[a] {
+							content[a][b] = c.val(e.in.Pat, a, b)
+						}
+					}
+					content[i][j] = wval
+					C := ownerOf(e.in.Storage, e.in.T, content, c.Vr, c.Vc)
+					var oc, ov interface{}
+					if msg := vh.Try(func() { oc = e.observers(C, content) }); msg == "" {
+						if msg := vh.Try(func() { ov = e.observers(V, content) }); msg != "" {
+							e.bad(op, "observer_panic_after_write", vh.M{"write": []int{i, j}}, msg)
+							return
+						}
+						if canon(ov) != canon(oc) {
+							e.bad(op, "observers_after_write_differ_from_copy", vh.M{"write": []int{i, j}, "obs": oc}, ov)
+							return
+						}
 					}
 				}
 				set(V, i, j, c.val(e.in.Pat, i, j))
@@ -529,15 +614,15 @@ func (e *env) writeThroughWith(op string, build func() (Matrix, Matrix), set fun
 
 func (e *env) writeThrough() {
 	c := e.c
-	e.writeThroughWith("WriteThrough", e.fresh, func(V Matrix, i, j int, v float64) { V.At(i, j).SetFloat64(v) })
+	e.writeThroughWith("WriteThrough", true, e.fresh, func(V Matrix, i, j int, v float64) { V.At(i, j).SetFloat64(v) })
 	if e.in.magic() {
-		e.writeThroughWith("MagicWriteThrough", func() (Matrix, Matrix) {
+		e.writeThroughWith("MagicWriteThrough", false, func() (Matrix, Matrix) {
 			p := e.in.parent(c)
 			return p, applyWord(p, c.W, true)
 		}, func(V Matrix, i, j int, v float64) { V.(MagicMatrix).MagicAt(i, j).SetFloat64(v) })
 	}
 	// a write through an iterator positioned on the element
-	e.writeThroughWith("IteratorWriteThrough", e.fresh, func(V Matrix, i, j int, v float64) {
+	e.writeThroughWith("IteratorWriteThrough", false, e.fresh, func(V Matrix, i, j int, v float64) {
 		if V.ConstAt(i, j).GetFloat64() == 0 {
 			V.At(i, j).SetFloat64(v) // iterators need not visit zero elements
 			return
@@ -556,7 +641,7 @@ func (e *env) writeThrough() {
 				P.At(k/c.Pc, k%c.Pc).SetFloat64(wval)
 				if g := V.ConstAt(i, j).GetFloat64(); g != wval {
 					what := "view_does_not_see_parent_write"
-					if e.absentAfterT(i, j) && g == 0 {
+					if e.absentAtT(i, j) && g == 0 {
 						what = "absent_cell_after_T_not_shared"
 					}
 					e.bad("ReadThrough", what, vh.M{"read": []int{i, j}, "cell": k, "value": wval}, g)
